@@ -12,7 +12,7 @@ PROP = {
             "each x a LuaFormatConfig over every field (1/3 default, 1/3 few switches, 1/3 all random); "
             "distinct = FNV of (text, config); non-trivial = input has no syntax errors and >= 8 code tokens were compared",
     "min_nontrivial": {"quick": 2000, "thorough": 80000},
-    "max_secs": {"quick": 60, "thorough": 800},
+    "max_secs": {"quick": 600, "thorough": 1500},
     "require_clauses": ["1:errors-unchanged", "2:output-parses", "3:token-seq", "4:comments", "changed-by-formatting",
                         "family:g-valid", "family:corpus", "family:std-file", "family:corpus-mutant", "family:doc-heavy", "family:seed", "family:near-width"],
     "assumptions": COMMON_ASSUME + [
